@@ -14,7 +14,7 @@ func init() {
 		ID: "C01",
 		Explanation: "Structural necessary conditions of 'stored data is confidential, authenticated and bound to its key', for every call site / path: " +
 			"(1) every physical.Entry the barrier package hands to the physical backend carries a Value that originates only from (*AESGCMBarrier).encrypt/encryptTracked, whose output originates only from cipher.AEAD.Seal; " +
-			"(2) key binding: the storage key of such an entry is the same expression as the path given to encrypt; in the current record format the AEAD associated data of Seal and Open derive from the whole `path` parameter (nil only when path is empty); reads decrypt under the key they were fetched with; writer and reader use the same header layout (term in [0:4], version at [4], ciphertext from [5]); " +
+			"(2) key binding: the storage key of such an entry is the same expression as the path given to encrypt; in the current record format the AEAD associated data of Seal and Open derive from the whole `path` parameter (nil only when path is empty) and are the bare byte conversion of that parameter — no slicing, indexing, concatenation or call between the parameter and the AEAD operand; reads decrypt under the key they were fetched with; writer and reader use the same header layout (term in [0:4], version at [4], ciphertext from [5]); " +
 			"(3) short or unknown-version records are refused before they are sliced: every [:4] slice of a fetched record is cut by a len>=4 guard, decrypt by len>5, and the version switch's default arm returns an error; " +
 			"(4) the logical.Storage methods of the barrier and of its transaction reach the backend only through putInternal/lockSwitchedGet/deleteWithBackend/listPageWithBackend; " +
 			"(5) who-may-call: every invoke of physical.Backend.Put/Delete outside the physical layers and the barrier package is in a frozen table whose rows pin the storage key to a reviewed constant; constructors of directStorageAccess are tabled.",
@@ -123,6 +123,7 @@ func runC01(c *eng.Ctx, thorough bool) {
 			if !has {
 				c.Violation(f, "associated data of Seal (current format)", s.Pos(), "the associated data no longer derives from the storage path: records are not bound to their key", nil)
 			}
+			wholePathAAD(c, f, "Seal", s, aad)
 		}
 		if bound == 0 {
 			c.Violation(f, "key-bound Seal", f.Pos(), "no Seal call with path-derived associated data exists: the current record format is not key-bound", nil)
@@ -181,6 +182,7 @@ func runC01(c *eng.Ctx, thorough bool) {
 			if !has {
 				c.Violation(f, "associated data of Open (current format)", o.Pos(), "the associated data no longer derives from the storage path", nil)
 			}
+			wholePathAAD(c, f, "Open", o, aad)
 		}
 		if bound == 0 {
 			c.Violation(f, "key-bound Open", f.Pos(), "no Open call with path-derived associated data exists", nil)
@@ -498,4 +500,59 @@ func runC01(c *eng.Ctx, thorough bool) {
 func reQuote(s string) string {
 	r := strings.NewReplacer(`\`, `\\`, `.`, `\.`, `(`, `\(`, `)`, `\)`, `[`, `\[`, `]`, `\]`, `*`, `\*`, `+`, `\+`, `?`, `\?`, `{`, `\{`, `}`, `\}`, `|`, `\|`, `^`, `\^`, `$`, `\$`)
 	return r.Replace(s)
+}
+
+// wholePathAAD (C01.2): the associated data handed to Seal/Open is, on every
+// incoming phi edge, either nil or the direct []byte conversion of the whole
+// `path` parameter. Provenance alone (param:path among the origins) also
+// accepts a part of the path (path[i:], a hash, a joined string); a record
+// authenticated under a part of its key can be relocated between keys that
+// share that part.
+func wholePathAAD(c *eng.Ctx, f *ssa.Function, op string, at ssa.CallInstruction, aad ssa.Value) {
+	site := "associated data of " + op + " is the whole path"
+	seen := map[ssa.Value]bool{}
+	bad := ""
+	whole := 0
+	var walk func(v ssa.Value)
+	walk = func(v ssa.Value) {
+		if v == nil || seen[v] {
+			return
+		}
+		seen[v] = true
+		switch x := v.(type) {
+		case *ssa.Phi:
+			for _, e := range x.Edges {
+				walk(e)
+			}
+		case *ssa.Const:
+			if x.Value != nil {
+				bad = "the constant " + eng.Expr(x)
+			}
+		case *ssa.Convert:
+			if p, ok := x.X.(*ssa.Parameter); ok && p.Name() == "path" {
+				whole++
+			} else {
+				bad = "a conversion of " + eng.ExprDeep(x.X)
+			}
+		case *ssa.ChangeType:
+			walk(x.X)
+		case *ssa.Slice:
+			if x.Low == nil && x.High == nil && x.Max == nil {
+				walk(x.X)
+			} else {
+				bad = "a sub-slice " + eng.ExprDeep(x)
+			}
+		default:
+			bad = eng.ExprDeep(v)
+		}
+	}
+	walk(aad)
+	switch {
+	case bad != "":
+		c.Violation(f, site, at.Pos(), "the associated data may be "+bad+", not the byte conversion of the whole path parameter: the record is bound to only a part (or a function) of its key", nil)
+	case whole == 0:
+		c.Violation(f, site, at.Pos(), "no incoming value of the associated data is the byte conversion of the path parameter", nil)
+	default:
+		c.OK(f, site, at.Pos(), fmt.Sprintf("every non-nil incoming value (%d) is []byte(path) of the parameter itself", whole))
+	}
 }
